@@ -37,7 +37,8 @@ def correspondence(ctx):
 
 
 def rand_factor(rng):
-    return rng.choice([0.0, 0.0, 1.0, -1.0, 2.0, -2.0, 0.5, 3.0, float(rng.randint(-5, 5)), rng.uniform(-4, 4)])
+    return rng.choice([0.0, 0.0, 1.0, -1.0, 2.0, -2.0, 0.5, 3.0, float(rng.randint(-5, 5)), rng.uniform(-4, 4),
+                       2.0 ** -16, -2.0 ** -17, 1e-5, 2.0 ** 12])       # also very small / large factors: determinants of 1e-10 are still invertible
 
 
 def rand_ops(rng):
